@@ -186,7 +186,7 @@ func RunCheck(o CheckOptions) int {
 	for _, h := range hs {
 		ht0 := time.Now()
 		ex := &Explorer{P: P, Harness: h, Workers: o.Workers, Lim: lim, Solver: o.Solver,
-			Fallbacks: []string{"cvc5", "z3-new"}, MaxPaths: o.MaxPaths, Deadline: time.Now().Add(deadline), WantModel: !o.NoNative}
+			Fallbacks: []string{"cvc5", "z3-new"}, FPSolver: "cvc5", MaxPaths: o.MaxPaths, Deadline: time.Now().Add(deadline), WantModel: !o.NoNative}
 		if err := ex.Run(); err != nil {
 			fmt.Fprintln(os.Stderr, "explore:", err)
 			return 2
